@@ -4,17 +4,17 @@ namespace Kit.Spiffe
 
 /-- One internal step the harness allows: a statement of the Run goroutine, or of a consumer that is
 not held at the hook. -/
-inductive TauStep (v : Variant) (parked : List Nat) : St → St → Prop where
-  | run {s t : St} : step v s .run = some t → TauStep v parked s t
-  | cons {s t : St} (i : Nat) : heldAtHook v parked s i = false → step v s (.cons i) = some t →
-      TauStep v parked s t
+inductive TauStep (v : Variant) (c : Ctx) : St → St → Prop where
+  | run {s t : St} : runHeldAtHook c s = false → step v s .run = some t → TauStep v c s t
+  | cons {s t : St} (i : Nat) : heldAtHook v c.parked s i = false → step v s (.cons i) = some t →
+      TauStep v c s t
 
-inductive TauStar (v : Variant) (parked : List Nat) : St → St → Prop where
-  | refl (s : St) : TauStar v parked s s
-  | tail {s t u : St} : TauStar v parked s t → TauStep v parked t u → TauStar v parked s u
+inductive TauStar (v : Variant) (c : Ctx) : St → St → Prop where
+  | refl (s : St) : TauStar v c s s
+  | tail {s t u : St} : TauStar v c s t → TauStep v c t u → TauStar v c s u
 
-theorem TauStar.trans {v : Variant} {parked : List Nat} {s t u : St}
-    (h1 : TauStar v parked s t) (h2 : TauStar v parked t u) : TauStar v parked s u := by
+theorem TauStar.trans {v : Variant} {c : Ctx} {s t u : St}
+    (h1 : TauStar v c s t) (h2 : TauStar v c t u) : TauStar v c s u := by
   induction h2 with
   | refl => exact h1
   | tail _ hs ih => exact .tail ih hs
@@ -25,17 +25,21 @@ steps. -/
 inductive TraceRun (v : Variant) : Ctx → St → List Ev → St → Prop where
   | nil (c : Ctx) (s : St) : TraceRun v c s [] s
   | cons {c : Ctx} {s s1 s2 t : St} {e : Ev} {es : List Ev} :
-      evState v c s e = some s1 → TauStar v (c.after e).parked s1 s2 →
+      evState v c s e = some s1 → TauStar v (c.after e) s1 s2 →
       TraceRun v (c.after e) s2 es t → TraceRun v c s (e :: es) t
 
-theorem tauSucc_sound {v : Variant} {parked : List Nat} {s t : St} (h : t ∈ tauSucc v parked s) :
-    TauStep v parked s t := by
+theorem tauSucc_sound {v : Variant} {c : Ctx} {s t : St} (h : t ∈ tauSucc v c s) :
+    TauStep v c s t := by
   simp only [tauSucc, List.mem_append, List.mem_filterMap, List.mem_range] at h
   rcases h with h | ⟨i, _, h⟩
-  · cases hr : step v s .run with
-    | none => rw [hr] at h; simp at h
-    | some u => rw [hr] at h; simp at h; subst h; exact .run hr
-  · cases hh : heldAtHook v parked s i with
+  · cases hrh : runHeldAtHook c s with
+    | true => rw [hrh] at h; simp at h
+    | false =>
+      rw [hrh] at h
+      cases hr : step v s .run with
+      | none => rw [hr] at h; simp at h
+      | some u => rw [hr] at h; simp at h; subst h; exact .run hrh hr
+  · cases hh : heldAtHook v c.parked s i with
     | true => rw [hh] at h; simp at h
     | false => rw [hh] at h; simp at h; exact .cons i hh h
 
@@ -56,10 +60,10 @@ theorem mem_foldl_insertNew (xs : List St) : ∀ (acc : List St) (t : St),
         · exact Or.inr (by simp [h])
     · exact Or.inr (by simp [h])
 
-theorem closure_sound {v : Variant} {parked : List Nat} (P : St → Prop)
-    (hP : ∀ s t, P s → TauStep v parked s t → P t) :
+theorem closure_sound {v : Variant} {c : Ctx} (P : St → Prop)
+    (hP : ∀ s t, P s → TauStep v c s t → P t) :
     ∀ (n : Nat) (acc todo : List St), (∀ t ∈ acc, P t) → (∀ t ∈ todo, P t) →
-      ∀ t ∈ closure v parked n acc todo, P t := by
+      ∀ t ∈ closure v c n acc todo, P t := by
   intro n
   induction n with
   | zero => intro acc todo ha _ t ht; simp only [closure] at ht; exact ha t ht
@@ -70,7 +74,7 @@ theorem closure_sound {v : Variant} {parked : List Nat} (P : St → Prop)
     | cons s todo =>
       simp only [closure] at ht
       have hs : P s := htodo s (by simp)
-      have hnew : ∀ u ∈ ((tauSucc v parked s).filter fun t => !(acc.contains t)).foldl insertNew [],
+      have hnew : ∀ u ∈ ((tauSucc v c s).filter fun t => !(acc.contains t)).foldl insertNew [],
           P u := by
         intro u hu
         rcases mem_foldl_insertNew _ [] u hu with h | h
@@ -87,14 +91,14 @@ theorem closure_sound {v : Variant} {parked : List Nat} (P : St → Prop)
         · exact hnew u h
 
 theorem close_sound {v : Variant} {m : Sim} {t : St} (ht : t ∈ (close v m).states) :
-    ∃ s ∈ m.states, TauStar v m.parked s t := by
+    ∃ s ∈ m.states, TauStar v m.toCtx s t := by
   simp only [close] at ht
-  have hinit : ∀ u ∈ m.states.foldl insertNew [], ∃ s ∈ m.states, TauStar v m.parked s u := by
+  have hinit : ∀ u ∈ m.states.foldl insertNew [], ∃ s ∈ m.states, TauStar v m.toCtx s u := by
     intro u hu
     rcases mem_foldl_insertNew _ [] u hu with h | h
     · simp at h
     · exact ⟨u, h, .refl u⟩
-  exact closure_sound (fun u => ∃ s ∈ m.states, TauStar v m.parked s u)
+  exact closure_sound (fun u => ∃ s ∈ m.states, TauStar v m.toCtx s u)
     (fun s t ⟨s0, h0, hs⟩ hst => ⟨s0, h0, .tail hs hst⟩) _ _ _ hinit hinit t ht
 
 theorem close_ctx (v : Variant) (m : Sim) : (close v m).toCtx = m.toCtx := rfl
@@ -122,13 +126,13 @@ theorem acceptFrom_sound {v : Variant} : ∀ (es : List Ev) (m : Sim) (k : Nat) 
       exact ⟨s, hs, .cons hev htau htr⟩
 
 /-- Every step of a `TraceRun` is a step of the LTS (or no step at all): the run exists in the LTS. -/
-theorem tauStar_reach {v : Variant} {parked : List Nat} {a s t : St} (h0 : Reach v a s)
-    (h : TauStar v parked s t) : Reach v a t := by
+theorem tauStar_reach {v : Variant} {c : Ctx} {a s t : St} (h0 : Reach v a s)
+    (h : TauStar v c s t) : Reach v a t := by
   induction h with
   | refl => exact h0
   | tail _ hs ih =>
     cases hs with
-    | run h => exact .tail _ ih h
+    | run _ h => exact .tail _ ih h
     | cons i _ h => exact .tail _ ih h
 
 theorem of_ite_some {c : Prop} [Decidable c] {s t : St}
@@ -139,6 +143,9 @@ theorem evState_reach {v : Variant} {c : Ctx} {a s t : St} {e : Ev} (h0 : Reach 
     (h : evState v c s e = some t) : Reach v a t := by
   cases e with
   | callRun => exact .tail .callRun h0 h
+  | callRunHeld => exact .tail .callRun h0 h
+  | runPark => simp only [evState] at h; exact (of_ite_some h) ▸ h0
+  | runRelease => simp only [evState, Option.some.injEq] at h; subst h; exact h0
   | callReady => exact .tail .callReady h0 h
   | callGet p => exact .tail .callGet h0 h
   | callRun2 => exact .tail .runLoser h0 h
@@ -173,8 +180,8 @@ theorem traceRun_reach {v : Variant} {c : Ctx} {a s t : St} {es : List Ev} (h0 :
   | nil => exact h0
   | cons hev htau _ ih => exact ih (tauStar_reach (evState_reach h0 hev) htau)
 
-theorem closure_superset {v : Variant} {parked : List Nat} : ∀ (n : Nat) (acc todo : List St) (t : St),
-    t ∈ acc → t ∈ closure v parked n acc todo := by
+theorem closure_superset {v : Variant} {c : Ctx} : ∀ (n : Nat) (acc todo : List St) (t : St),
+    t ∈ acc → t ∈ closure v c n acc todo := by
   intro n
   induction n with
   | zero => intro acc todo t h; simpa [closure] using h
